@@ -115,6 +115,10 @@ def judge(ctx, cases, res, prop, site, modes=("o",), c04=False):
         shown = {"sql": c["sql"], "db": {k: v["rows"] for k, v in c["db"].items() if ("mem." + k + " ") in c["sql"]}}
         expected = {"groups": c["groups"], "any_n_rows_of": c["all"] if c["sub"] else None, "n": c["n"]}
         if c04:
+            sd = res["%d:o" % i].get("schema_diff", "")
+            if sd:
+                ctx.violation(dict({"site": "optimizer", "why": "schema changed: " + sd.split(" ")[0]}, **f), shown, expected="the optimised plan announces the same schema", observed=sd,
+                              note="the optimiser changed the schema of the plan: " + sd)
             vo, vn = verdicts["o"], verdicts["n"]
             same = vo[0] == vn[0] and (vo[0] != "ok" or bag(vo[1]) == bag(vn[1]) or c["sub"])
             if vo[0] in ("diff", "fail") and vn[0] == "ok":
